@@ -20,6 +20,15 @@ pub fn roundtrip(rs: &RefSentence) -> TestResult {
         Err(e) => return Err(format!("parser rejects the writer's output {y:?}: {e}").into()),
     };
     let got = oracle::observe_sentence(&p);
+    // parsing through the in-place variant on a sentence that already holds other annotations
+    // must give the same sentence
+    let mut dirty = Sentence::from_tokenized("zz/Q1/Q2/Q3 y/R1 xxx/S1/S2/S3 w/T").map_err(|e| e.to_string())?;
+    dirty.update_tokenized(&y).map_err(|e| format!("update_tokenized rejects the writer's output {y:?}: {e}"))?;
+    ensure_eq!(
+        oracle::observe_sentence(&dirty),
+        got,
+        "update_tokenized on a used sentence differs from from_tokenized for {y:?}"
+    );
     ensure_eq!(got.text(), rs.text(), "raw text after write+parse (written {y:?})");
     ensure_eq!(got.labels, rs.labels, "boundaries after write+parse (written {y:?})");
     let toks = oracle::ref_tokens(&rs.labels);
